@@ -21,5 +21,5 @@ SPEC = dict(
         "hand-written model coq/models/SnapSeq.v (see checks/c10.py), tied by the differential run of the shared driver harness/overlay/overlord/snapstate/zz_verif_c10_test.go: every step's task chain, refusal and resulting state are compared with the model's",
         "the package's test fakes (fakeSnappyBackend, fakeStore, snapmgrBaseTest set-up): the system-visible side is what snapd ASKS the backend to do",
     ],
-    assumptions=['PARTIAL: proved on the model — every completed or refused operation of every kind preserves the invariant (install, refresh to new/kept incl. garbage collection, revert, enable, disable, remove, remove --revision, pokes), every failed+undone install / revert, every failed+undone refresh at ANY position (outside the config-from-nothing class of C10), and by induction every history of such steps from the empty state (retain >= 2). Not proved, monitored on the implementation only: failures inside remove / remove --revision / enable / disable, failed operations in the config-from-nothing class', 'one snap per history: operations on several snaps and the frame condition between them are not exercised', 'failure injection = an error-trigger task in place of the k-th task (no partial effect of the failing task)'],
+    assumptions=['PROVED on the model for arbitrary histories (C11_consistent_invariant): every operation kind, completed, refused, or failed at any task and undone, preserves the invariant; side condition refresh.retain >= 2 (the range configuration accepts). The tie to the real code is the differential run: completed changes of every kind, failures at random tasks of every kind of change, and every failure position of install / refresh / revert / remove / remove --revision / enable / disable sweeps', 'one snap per history: operations on several snaps and the frame condition between them are not exercised', 'failure injection = an error-trigger task in place of the k-th task (no partial effect of the failing task)'],
 )
